@@ -25,8 +25,10 @@ def regenerate(topics=None, verbose=False):
         for name, params, f, outnames, doc in lst:
             try:
                 paths = explore(f)
-                d = GenDef(name, params, paths, outnames, doc)
+                d = GenDef(name, params, paths, outnames, doc, collapse=name in specs.COLLAPSE)
                 defs.append(d)
+                from . import emit as _emit
+                _emit.APP_FUNCS[name] = d.funcs
                 info["defs"][name] = {"paths": d.npaths, "funcs": d.funcs, "params": params,
                                        "bool": d.is_bool}
             except Exception as e:
